@@ -1000,6 +1000,33 @@ func c06scenario(sc *scene, k int) {
 			sc.s.Walk(c2.Blockid, false)
 			vrt.Quiesce()
 		}
+	case 5: // the pool holds a transaction when a peer's block carrying the same transaction arrives
+		sc.blockIDs = append(sc.blockIDs, b2.Blockid)
+		if sc.s.DoTx(sc.goodTx2()) == nil {
+			if sc.e.L.ConfirmBlock(b2, false).Succ {
+				sc.s.Play(b2.Blockid)
+			}
+		}
+	case 6: // the pool holds a transaction when a peer's block carrying a conflicting one arrives: the pending one is undone
+		t2x := vkit.Tx("t2x", []*protos.TxInput{vkit.In([]byte("t1"), 0, "B", sc.x)}, []*protos.TxOutput{vkit.Out("D", sc.x, 0)})
+		vkit.WithKey(t2x, "bk", "k1", []byte("t1"), 0, []byte("other"))
+		b2x := vkit.Block(sc.b1.Blockid, 5, []*pb.Transaction{vkit.Coinbase("cb5", "M", []byte{7}), t2x})
+		sc.blockIDs = append(sc.blockIDs, b2x.Blockid)
+		if sc.s.DoTx(sc.goodTx2()) == nil {
+			if sc.e.L.ConfirmBlock(b2x, false).Succ {
+				sc.s.Play(b2x.Blockid)
+			}
+		}
+	case 7: // the pool holds a transaction (spending an output of b1) when the state walks to a longer fork that lacks b1
+		c1 := vkit.Block(sc.e.Root.Blockid, 3, []*pb.Transaction{vkit.Coinbase("cb3", "M", []byte{7})})
+		c2 := vkit.Block(c1.Blockid, 4, []*pb.Transaction{vkit.Coinbase("cb4", "M", []byte{7})})
+		sc.blockIDs = append(sc.blockIDs, c1.Blockid, c2.Blockid)
+		if sc.s.DoTx(sc.goodTx2()) == nil {
+			if sc.e.L.ConfirmBlock(c1, false).Succ && sc.e.L.ConfirmBlock(c2, false).Succ {
+				sc.s.Walk(c2.Blockid, false)
+				vrt.Quiesce()
+			}
+		}
 	case 4: // truncation as the miner does it: the state walks back to the target, then the ledger drops what lies above
 		sc.blockIDs = append(sc.blockIDs, b2.Blockid)
 		if sc.e.L.ConfirmBlock(b2, false).Succ && sc.s.Play(b2.Blockid) == nil {
@@ -1014,7 +1041,7 @@ func c06scenario(sc *scene, k int) {
 // verifC06: crash (panic before the c-th storage write, c over every write the
 // scenario issues, across both databases) and restart.
 func verifC06() {
-	k := vrt.Choice("scenario", 5)
+	k := vrt.Choice("scenario", 8)
 	// reference run: counts the writes of the scenario
 	fr := newFaults()
 	ref := newScene("c06ref", fr)
